@@ -2,7 +2,7 @@
    Model: C05/Model.v (mirrors src/ircmsgs.py).  Proofs: Lemmas.v, Roundtrip.v. *)
 From Coq Require Import List NArith.
 Import ListNotations.
-Require Import Base.Wire Base.PyStr C05.Model C05.Lemmas C05.Roundtrip.
+Require Import Base.Wire Base.PyStr C05.Model C05.Lemmas C05.Roundtrip C05.Hostmask.
 
 (* Tag values survive escaping and unescaping unchanged, for every string. *)
 Theorem C05_tag_value_roundtrip : forall v, unescape (escape v) = v.
@@ -17,18 +17,62 @@ Theorem C05_parse_serialize :
 Proof. exact parse_serialize. Qed.
 Print Assumptions C05_parse_serialize.
 
-(* Totality: whatever string the server sends, constructing the message either
-   succeeds or raises MalformedIrcMsg; nothing else escapes.  (Until the repair
-   of finding C05.F3 -- a `time` tag without value -- this held only on a domain;
-   the except clause of IrcMsg.__init__ is regenerated into T05.PARSE_CATCHES.) *)
+(* Totality: whatever string the server sends, constructing the message -- the parse inside the try AND the
+   nick/user/host split of the prefix after it -- either succeeds or raises MalformedIrcMsg; nothing else
+   escapes.  (Until the repair of finding C05.F3 -- a `time` tag without value -- and of C05.F30 -- a prefix
+   such as a!b@c!d, which isUserHostmask accepts and the old splitHostmask could not split -- this held only
+   on a domain; the except clause of IrcMsg.__init__ is regenerated into T05.PARSE_CATCHES, the split order of
+   ircutils.splitHostmask into T05.SPLIT1/SPLIT2, re's \s into T05.WHITESPACE.) *)
 Theorem C05_parse_total :
-  forall vt s, (exists m, parse vt s = Ok m) \/ parse vt s = Raise MalformedIrcMsg.
-Proof. exact parse_total. Qed.
+  forall vt s, (exists f, parse_full vt s = Ok f) \/ parse_full vt s = Raise MalformedIrcMsg.
+Proof. exact parse_full_total. Qed.
 Print Assumptions C05_parse_total.
 
-Theorem C05_parse_exn_classes : forall vt s e, parse vt s = Raise e -> e = MalformedIrcMsg.
-Proof. exact parse_exn_classes. Qed.
+Theorem C05_parse_exn_classes : forall vt s e, parse_full vt s = Raise e -> e = MalformedIrcMsg.
+Proof. exact parse_full_exn_classes. Qed.
 Print Assumptions C05_parse_exn_classes.
+
+(* ircutils.splitHostmask answers on everything ircutils.isUserHostmask accepts, its pieces rejoin to the
+   hostmask (joinHostmask is its inverse), the host holds no '@' and the user no '!'; on anything else it
+   is the assert that fails. *)
+Theorem C05_split_hostmask_total :
+  forall s, is_user_hostmask s = true ->
+  exists n u h, split_hostmask s = Ok (n, u, h) /\ s = n ++ BANG :: u ++ AT :: h /\
+                mem AT h = false /\ mem BANG u = false.
+Proof. exact split_hostmask_total. Qed.
+Print Assumptions C05_split_hostmask_total.
+
+Theorem C05_split_hostmask_rejects :
+  forall s, is_user_hostmask s = false -> split_hostmask s = Raise AssertionError.
+Proof. exact split_hostmask_rejects. Qed.
+Print Assumptions C05_split_hostmask_rejects.
+
+(* the fields of a parsed message: either the prefix is a user hostmask and nick!user@host is the prefix,
+   or all three are the prefix *)
+Theorem C05_nick_user_host :
+  forall m f, finish m = Ok f ->
+  (is_user_hostmask (m_prefix m) = true /\ m_prefix m = f_nick f ++ BANG :: f_user f ++ AT :: f_host f) \/
+  (is_user_hostmask (m_prefix m) = false /\ f_nick f = m_prefix m /\ f_user f = m_prefix m /\ f_host f = m_prefix m).
+Proof. exact finish_rejoin. Qed.
+Print Assumptions C05_nick_user_host.
+
+(* the repair changed no answer: wherever the split order of the pinned tree answered, the current one
+   gives the same three pieces; and the pinned order did not always answer (witness a!b@c!d) *)
+Theorem C05_split_extends_pinned : forall s r, split_hostmask_old s = Ok r -> split_hostmask s = Ok r.
+Proof. exact split_extends_old. Qed.
+Print Assumptions C05_split_extends_pinned.
+
+Theorem C05_pinned_split_partial :
+  is_user_hostmask witness_hostmask = true /\ split_hostmask_old witness_hostmask = Raise ValueError /\
+  split_hostmask witness_hostmask = Ok ([97], [98], [99; 33; 100])%N.
+Proof. exact old_split_partial. Qed.
+Print Assumptions C05_pinned_split_partial.
+
+Theorem C05_hostmask_line_parses :
+  forall vt, exists f, parse_full vt witness_hostmask_line = Ok f /\
+                       f_nick f = [97]%N /\ f_user f = [98]%N /\ f_host f = [99; 33; 100]%N.
+Proof. exact hostmask_line_parses. Qed.
+Print Assumptions C05_hostmask_line_parses.
 
 (* non-vacuity / regression witness: the line of the repaired finding is rejected cleanly *)
 Theorem C05_valueless_time_rejected :
